@@ -15,6 +15,7 @@ fn c07_unspent_dump_matches_reference() {
             cases += 1;
             let last = e.unwrap_or(11).min(11);
             let out = tempfile::tempdir().unwrap();
+            std::fs::write(out.path().join("unspent.csv.tmp"), "stale;row;of;an;aborted;run\n".repeat(5000)).unwrap();   // leftover of an aborted run
             let m = UnspentCsvDump::build_subcommand().get_matches_from(vec!["unspentcsvdump", out.path().to_str().unwrap()]);
             let cb = UnspentCsvDump::new(&m).unwrap();
             let inp = format!("history {} range {}..{:?}", salt, s, e);
